@@ -90,6 +90,11 @@ impl HypPciTransport {
                     .configuration_access
                     .read_word(device_function, capability.offset + CAP_LENGTH_OFFSET),
             };
+            // The driver must ignore capabilities with a reserved BAR value (VirtIO 4.1.4.1): only
+            // BARs 0 to 5 exist, anything else is not a BAR register.
+            if struct_info.bar > 5 {
+                continue;
+            }
 
             match cfg_type {
                 VIRTIO_PCI_CAP_COMMON_CFG if common_cfg.is_none() => {
